@@ -2,6 +2,7 @@
 
 from __future__ import annotations
 
+import copy
 from abc import ABC
 from contextlib import suppress
 from functools import partial
@@ -87,8 +88,7 @@ class CachingLoaderMixin(ABC, _CachingLoaderProtocol):
             self.cache[cache_key] = template
             return template
 
-        cached_template.globals = env.make_globals(globals)
-        return cached_template
+        return self._bind_globals(cached_template, env.make_globals(globals))
 
     async def _check_cache_async(
         self,
@@ -109,8 +109,29 @@ class CachingLoaderMixin(ABC, _CachingLoaderProtocol):
             self.cache[cache_key] = template
             return template
 
-        cached_template.globals = env.make_globals(globals)
-        return cached_template
+        return self._bind_globals(cached_template, env.make_globals(globals))
+
+    @staticmethod
+    def _bind_globals(
+        cached_template: BoundTemplate,
+        globals: Mapping[str, object],  # noqa: A002
+    ) -> BoundTemplate:
+        """Return a template bound to _globals_ without changing the cached one.
+
+        The cached template has been handed out before. Rebinding its globals in
+        place would change what those earlier templates render. If it is already
+        bound to the same variables we return it as is, otherwise a shallow copy,
+        sharing the parse tree, bound to _globals_.
+        """
+        bound = cached_template.globals
+        if bound.keys() == globals.keys() and all(
+            bound[key] is value for key, value in globals.items()
+        ):
+            return cached_template
+
+        template = copy.copy(cached_template)
+        template.globals = globals
+        return template
 
     def load(
         self,
